@@ -916,7 +916,13 @@ def run_load(fn, sym, torn=False):
     pc = ex.requires()
     env = {"f": Tok("file")}
     ex.past_mmap_pc = None
-    ex.run(list(fn.body), env, pc)
+    try:
+        ex.run(list(fn.body), env, pc)
+    except Unsupported as e:
+        # what was generated up to the unsupported construct stands on its own (each obligation speaks about a prefix of
+        # the execution): hand it to the caller together with the reason
+        e.partial = ex
+        raise
     s = sym
     if torn:
         # C12: no path may return, or even get past mmap, on a strict prefix
